@@ -91,15 +91,20 @@ Theorem rescale_mean_dict : forall default_bond edges (pos : list (Z * rv)) d,
   mean_bond numR sqrt (fun k => plookup (v2scale numR d c) k (rescale numR sqrt default_bond edges posf pos)) edges
   = default_bond.
 Proof.
-  intros db edges pos d posf c Hd Hm. unfold rescale.
-  rewrite <- (rescale_mean_pos db edges posf Hd Hm). unfold mean_bond, lens_of. f_equal. apply map_ext. intros e.
-  unfold bond_len. unfold c. rewrite !plookup_rescale. reflexivity.
+  intros db edges pos d posf c Hd Hm.
+  etransitivity; [|apply (rescale_mean_pos db edges posf Hd Hm)].
+  unfold rescale, mean_bond, lens_of. f_equal. apply map_ext. intros e.
+  unfold bond_len. subst c. cbv beta. unfold lens_of. rewrite !plookup_rescale. reflexivity.
 Qed.
 
 (** pre-scale mean is non-zero as soon as one bonded pair does not coincide *)
 Lemma mean_nonzero posf edges e : In e edges -> bond_len numR sqrt posf e <> 0 -> mean_bond numR sqrt posf edges <> 0.
 Proof.
-  intros Hin Hne. unfold mean_bond, avg_of, lens_of. rewrite gen_avg_final_R, map_length.
+  intros Hin Hne.
+  assert (Hpos : 0 < bond_len numR sqrt posf e).
+  { pose proof (norm2_nonneg (v2sub numR (posf (fst e)) (posf (snd e)))) as Hnn. fold (bond_len numR sqrt posf e) in Hnn.
+    apply Rdichotomy in Hne. destruct Hne; lra. }
+  clear Hne. unfold mean_bond, avg_of, lens_of. rewrite gen_avg_final_R, map_length.
   assert (Hn : 0 < INR (length edges)) by (apply lt_0_INR; destruct edges; [destruct Hin|cbn; lia]).
   assert (Hs : 0 < sum_list numR (map (bond_len numR sqrt posf) edges) 0).
   { clear Hn. induction edges as [|x r IH]; [destruct Hin|]. cbn. rewrite sum_list_spec.
@@ -107,8 +112,8 @@ Proof.
     assert (0 <= sum_list numR (map (bond_len numR sqrt posf) r) 0).
     { apply sum_list_nonneg. intros y Hy. apply in_map_iff in Hy. destruct Hy as [e' [<- _]]. apply norm2_nonneg. }
     destruct Hin as [->|Hin].
-    - assert (0 <= bond_len numR sqrt posf e) by apply norm2_nonneg. lra.
+    - lra.
     - specialize (IH Hin). lra. }
-  intros H. apply Rmult_integral in H. destruct H as [H|H]; [lra|].
+  intros H. cbn [nzero nofnat numR] in H. apply Rmult_integral in H. destruct H as [H|H]; [lra|].
   pose proof (Rinv_0_lt_compat _ Hn). lra.
 Qed.
